@@ -52,8 +52,9 @@ func runC02(c *core.Ctx) {
 	checkModelShape(c, t, e, "model", true)
 	keys := sim.KeysOf(e)
 	K := sim.Proc{}
-	Uall := sim.Proc{Forget: keys}
-	Usub := sim.Proc{Forget: subset(c.R, keys)}
+	// in every second case the unknowing processes do not link the payload message types either
+	Uall := sim.Proc{Forget: keys, NoProto: c.Case%2 == 1}
+	Usub := sim.Proc{Forget: subset(c.R, keys), NoProto: c.Case%2 == 1}
 	type hist struct {
 		name string
 		h    []sim.Proc
